@@ -444,6 +444,9 @@ def run(ctx):
                     use_app = inst2.app is not None
                     if use_app:
                         inst2.extra["returns"] = "x"
+                    elif variant % 2 == 0:       # the generic App wrapper around a bare algorithm
+                        inst2.app = sp.app.App(inst2.alg, show_pbar=False)
+                        use_app = True
                     c, probs = canonical(inst2, use_app)
                     report(kind, dict(cfg, mode="App.run" if use_app else "loop"), probs, {"history": c})
                     runs.append((cfg, c))
@@ -567,6 +570,9 @@ def replay(obj):
             use_app = inst.app is not None
             if use_app:
                 inst.extra["returns"] = "x"
+            elif cfg["variant"] % 2 == 0:
+                inst.app = sp.app.App(inst.alg, show_pbar=False)
+                use_app = True
             c, probs = canonical(inst, use_app)
             print("updates", c["n"], "iter", c["iter"])
     for p in probs:
